@@ -1,8 +1,9 @@
 /- C11 — framing and host ambiguities are always flagged. Decision logic stated outright (pattern P4) on the header table:
    `requestFraming` and `requestHost` are the T-E / C-L / Host arbitration of htp_tx_process_request_headers as pure functions,
    `addHeader` is the repeated-header bookkeeping, `parseRequestHeader` the header-line parser. -/
-import HtpModel.Conn.TxState
+import HtpModel.Conn.Res
 import HtpModel.Lemmas.Flags
+import HtpModel.Lemmas.Conn
 
 namespace Htp.C11
 open Htp.Conn Htp.Gen Htp.Parse
@@ -200,5 +201,64 @@ example :
     (getHeaderC hs (b!"transfer-encoding")).isSome = true ∧ (getHeaderC hs (b!"content-length")).isSome = true ∧
     headerHasToken (b!"gzip, Chunked ") (b!"chunked") = true ∧
     hasFlag (requestFraming hs PROTOCOL_1_1 0).flags REQUEST_SMUGGLING = true := by decide
+
+/-! ### the response side (htp_connp_RES_BODY_DETERMINE, `resFraming`) -/
+
+/-- **C11 (responses: T-E chunked + C-L)**: a response whose Transfer-Encoding mentions `chunked` anywhere in its value (any case,
+    NUL bytes skipped, other codings before or after it) and that also has a Content-Length is marked as smuggling and its body is
+    framed by the chunked coding. -/
+theorem C11_res_te_and_cl (c : Conn) (uid : Nat) (t : Tx) (te cl : Header) (ct : Option Header)
+    (hf : c.findTx uid = some t) (hch : teHasChunked te.value = true) :
+    (resFraming (some te) (some cl) ct uid c).2 = .ok ∧
+    (resFraming (some te) (some cl) ct uid c).1.outState = .bodyChunkedLength ∧
+    ∃ t', (resFraming (some te) (some cl) ct uid c).1.findTx uid = some t' ∧
+      hasFlag t'.flags REQUEST_SMUGGLING = true ∧ t'.resTransferCoding = CODING_CHUNKED := by
+  have key : resFraming (some te) (some cl) ct uid c =
+      ({ c.modTx uid (fun t => { t with resTransferCoding := CODING_CHUNKED, resProgress := 3,
+                                        flags := t.flags ||| REQUEST_SMUGGLING }) with outState := .bodyChunkedLength }, .ok) := by
+    unfold resFraming
+    simp [hch]
+  rw [key]
+  refine ⟨rfl, rfl, ?_⟩
+  rw [findTx_outState, findTx_modTx _ _ _ (by intro x; rfl), hf]
+  exact ⟨_, rfl, hasFlag_or_right _ _ smug_ne, rfl⟩
+
+/-- transaction `uid` exists and carries the smuggling indicator -/
+def HasSmug (c : Conn) (uid : Nat) : Prop := ∃ t', c.findTx uid = some t' ∧ hasFlag t'.flags REQUEST_SMUGGLING = true
+
+theorem hasSmug_txs {c : Conn} {uid : Nat} (h : HasSmug c uid) (c' : Conn) (e : c'.txs = c.txs) : HasSmug c' uid := by
+  obtain ⟨t', h1, h2⟩ := h
+  refine ⟨t', ?_, h2⟩
+  unfold Conn.findTx at *
+  rw [e]; exact h1
+
+theorem hasSmug_modTx {c : Conn} {uid : Nat} (h : HasSmug c uid) (f : Tx → Tx) (hu : ∀ x, (f x).uid = x.uid)
+    (hfl : ∀ x, hasFlag x.flags REQUEST_SMUGGLING = true → hasFlag (f x).flags REQUEST_SMUGGLING = true) :
+    HasSmug (c.modTx uid f) uid := by
+  obtain ⟨t', h1, h2⟩ := h
+  exact ⟨f t', by rw [findTx_modTx _ _ _ hu, h1]; rfl, hfl _ h2⟩
+
+/-- **C11 (responses: repeated C-L)**: a response without chunked coding whose Content-Length occurred more than once is marked as
+    smuggling, whatever the value is (including an unparseable one, where the call then fails). -/
+theorem C11_res_cl_repeated (c : Conn) (uid : Nat) (t : Tx) (cl : Header) (te ct : Option Header)
+    (hf : c.findTx uid = some t) (hte : ∀ h, te = some h → teHasChunked h.value = false)
+    (hrep : hasFlag cl.flags FIELD_REPEATED = true) :
+    HasSmug (resFraming te (some cl) ct uid c).1 uid := by
+  have key : resFraming te (some cl) ct uid c = resCl (some cl) ct uid c := by
+    unfold resFraming
+    cases te with
+    | none => rfl
+    | some h => simp [hte h rfl]
+  rw [key]
+  have h1 : HasSmug (c.modTx uid (fun t => { t with resTransferCoding := CODING_IDENTITY, flags := t.flags ||| REQUEST_SMUGGLING })) uid :=
+    ⟨_, by rw [findTx_modTx _ _ _ (by intro x; rfl), hf]; rfl, hasFlag_or_right _ _ smug_ne⟩
+  have h2 := hasSmug_modTx h1 (fun t => { t with resContentLength := Num.parseContentLength cl.value }) (by intro x; rfl) (by intro x h; exact h)
+  unfold resCl
+  simp only [hrep, if_true]
+  split
+  · exact h2
+  · split
+    · exact hasSmug_modTx (hasSmug_txs h2 _ rfl) _ (by intro x; rfl) (by intro x h; exact h)
+    · exact hasSmug_txs h2 _ rfl
 
 end Htp.C11
